@@ -7,7 +7,8 @@
    the chain the partial message is completed with
      cc: "orig" (m's value) | "other" | "bot" | "bad" (malformed),
    and pj: the partial message carries the justification with its value stripped ("strip", as ToPartialGMessage
-   does) or with the original justification value ("keep", a peer is free to send that).
+   does), with the original justification value ("keep") or with the chain "other" in that field ("junk"); a peer is free
+   to send either, the aggregate is unchanged.
    Keys are chain names ("bot" = zero key).  The partial message always carries the zero chain as vote value. *)
 EXTENDS Validator
 
@@ -15,10 +16,10 @@ CONSTANT Mut   \* "none" = as coded; named deviations for the non-vacuity runs: 
 
 AKs == {"match", "zero", "other"}
 CCs == {"orig", "other", "bot", "bad"}
-PJs == {"strip", "keep"}
+PJs == {"strip", "keep", "junk"}
 KeyOf(ak, x) == CASE ak = "match" -> x.v [] ak = "zero" -> "bot" [] OTHER -> "other"
 ChainOf(cc, x) == IF cc = "orig" THEN x.v ELSE cc
-CarriedJV(pj, x) == IF pj = "keep" THEN x.jv ELSE "bot"
+CarriedJV(pj, x) == CASE pj = "keep" -> x.jv [] pj = "junk" -> "other" [] OTHER -> "bot"
 
 \* ---------------------------------------------------------------- stage 1: validateMessageWithVoteValueKey, partial = TRUE
 PartialJustificationE(x, e, pjv) ==
